@@ -240,15 +240,7 @@ Definition C10_sparse_zero_iter_statement (St : Type) (start : N * list N * entr
 
 (* wavelet matrix: ValueIter from value_iter x / select_iter r x / predecessor i x / successor i x
    (forward only, no size advertised); IntoIter (forward, exact). Its AccessIter is C10_access_iter_any. *)
-Definition C10_wm_value_iter_statement (St : Type) (start : list N * entry -> res St)
-    (step : list N * entry -> St -> call -> res (St * out (N * N))) : Prop :=
-  refines_deque (fun x => lenA (fst x) < 2 ^ 64 /\ entry_fits (snd x) /\
-                          match snd x with EValue _ | EValueSelect _ _ | EValuePred _ _ | EValueSucc _ _ => True
-                                         | _ => False end)
-                start step fwd_fits_nolen (fun x => vector_ref (fst x) (snd x)).
-Definition C10_wm_into_iter_statement (St : Type) (start : list N -> res St)
-    (step : list N -> St -> call -> res (St * out (N * N))) : Prop :=
-  refines_deque (fun xs => lenA xs < 2 ^ 64) start step fwd_fits (fun xs => vector_ref xs EInto).
+(* both PROVED: C10_wm_value_iter, C10_wm_into_iter (and C10_wm_access_iter) in Props/C10_wm.v *)
 
 (* ================================================================ non-vacuity *)
 
